@@ -47,6 +47,10 @@ RecOK == ri > 0 =>
                  /\ Is(r.locs, IF w = 0 THEN l0 ELSE PadLoopN(ReflectOdd(l0, w), w, r.n), "get_padded_extrema.locs(float)")
                  /\ Is(r.mags_ok, 1, "get_padded_extrema.mags(float)")
                  /\ Is(r.grid, "integer", "interp_envelope.grid(float)")
+      [] r.kind = "envp" ->     \* parabolic refinement on an integer-valued signal: one value per sample, evaluated at the integer time indices
+            /\ Is(r.none \in {0, 1}, TRUE, "interp_envelope.returns(parabolic)")
+            /\ (r.none = 0 => /\ Is(r.n_out, r.n, "interp_envelope.length(parabolic)")
+                              /\ Is(r.grid, "integer", "interp_envelope.grid(parabolic)"))
       [] r.kind = "isimf" ->    \* is_imf(column)[0]: the extrema / zero-crossing count criterion
             Is(r.out, IF IsImfCountCheck(r.sig) THEN 1 ELSE 0, "is_imf.extrema_zero_crossing_count")
       [] r.kind = "zc" -> Is(r.out, ZeroCrossings(r.sig), "zero_crossing_count")
